@@ -179,9 +179,17 @@ class Interp:
         self.solver.push()
         self.solver.add(cond)
         r = self.solver.check()
+        assertions = list(self.solver.assertions()) if r == z3.unknown else None
         self.solver.pop()
         if r == z3.unknown:
-            raise Unsupported(f"solver unknown on branch feasibility: {self.solver.reason_unknown()}")
+            # second back end (fixed-width bit-vectors, exact for bounded integers)
+            import bvquery
+            st, info = bvquery.check_bv(assertions, timeout_ms=max(self.timeout_ms, 60000))
+            if st == "unsat":
+                return False
+            if st == "sat":
+                return True
+            raise Unsupported(f"solver unknown on branch feasibility: LIA {self.solver.reason_unknown()}; BV {info}")
         return r == z3.sat
 
     def decide(self, cond):
@@ -741,7 +749,7 @@ class Interp:
         q = z3.Int(self.fresh("q"))
         r = z3.Int(self.fresh("r"))
         prod = self.imul(q, y)
-        self.ctx.side += [q >= 0, r >= 0, z3.Implies(y > 0, z3.And(r < y, x == prod + r, q <= x))]
+        self.ctx.side += [z3.And(q >= 0, q <= 2**64), z3.And(r >= 0, r <= 2**64), z3.Implies(y > 0, z3.And(r < y, x == prod + r, q <= x))]
         self.ctx.exact_int.append(z3.Implies(y > 0, z3.And(q == x / y, r == x % y)))
         return q, r
 
